@@ -51,6 +51,25 @@ func (w *World) srcOfSameInput(v ssa.Value, recv ssa.Value) (*ssa.Call, string) 
 		}
 		break
 	}
+	// a helper that receives the source (and the allocation) as parameters: every caller must
+	// pass the source of its own read/accept
+	if p, ok := v.(*ssa.Parameter); ok {
+		if rp, ok2 := stripIface(recv).(*ssa.Parameter); ok2 && rp.Parent() == p.Parent() && p.Parent().Object() != nil && !p.Parent().Object().Exported() {
+			sites := w.callsTo(p.Parent())
+			var origin *ssa.Call
+			for _, cs := range sites {
+				args := cs.Common().Args
+				o, why := w.srcOfSameInput(args[paramIndex(p)], args[paramIndex(rp)])
+				if o == nil {
+					return nil, "caller " + fname(cs.Parent()) + ": " + why
+				}
+				origin = o
+			}
+			if origin != nil {
+				return origin, ""
+			}
+		}
+	}
 	call, idx := callOf(v)
 	if call == nil || !call.Call.IsInvoke() {
 		return nil, "source " + w.key(v) + " is not a result of the relay read/accept"
